@@ -19,7 +19,9 @@ IR (JSON lists); every form is an expression with a value:
   ["break"] ["continue"] ["return", e]
   ["raise", exc, id]               (raise (XA id))
   ["try", [e...], [[var|None, [exc...], [e...]]...], else|None, finally|None]
-  ["with", [[var|None, id, enter_value, suppress]...], [e...]]
+  ["with", [[var|None, id, enter_value, suppress(, pre_id)]...], [e...]]
+                                   manager expression (CM id enter_value suppress); with the optional fifth element it is
+                                   (do (E pre_id 0) (CM ...)), a manager expression that needs statements
   ["lfor", var, it, cond|None, e]
 
 Trace: the interpreter records a series-parallel tree of effect events.  Seq = the documented order is
@@ -47,6 +49,18 @@ def lit_text(v):
     if isinstance(v, str):
         return '"' + v.replace("\\", "\\\\").replace('"', '\\"') + '"'
     raise ValueError("not a scalar literal: %r" % (v,))
+
+
+def mgr_pre(m):
+    """effect id evaluated (as a statement) before the manager object is built, or None"""
+    return m[4] if len(m) > 4 else None
+
+
+def mgr_text(m):
+    cm = "(CM %d %s %s)" % (m[1], lit_text(m[2]), lit_text(m[3]))
+    if mgr_pre(m) is not None:
+        return "(do (E %d 0) %s)" % (mgr_pre(m), cm)
+    return cm
 
 
 def render(e, ind=0, multiline=False):
@@ -122,7 +136,7 @@ def render(e, ind=0, multiline=False):
             s += sp + "(finally" + body(e[4]) + ")"
         return s + ")"
     if k == "with":
-        ms = " ".join("%s (CM %d %s %s)" % (var or "_", cid, lit_text(ev), lit_text(sup)) for var, cid, ev, sup in e[1])
+        ms = " ".join("%s %s" % (m[0] or "_", mgr_text(m)) for m in e[1])
         return "(with [" + ms + "]" + body(e[2]) + ")"
     if k == "boom":
         return {"plain": "(BOOM)", "macro-arg": "(wrap (BOOM))", "macro-template": "(mboom)"}[e[1]]
@@ -273,11 +287,15 @@ class Closure:
 
 
 class Interp:
-    def __init__(self, fault=None):
+    def __init__(self, fault=None, model_known=False):
         self.tr = Trace()
         self.module = Scope("module", None)
         self.fault = _faultmap(fault)  # {event_index: exc_class}
         self.nevents = 0
+        # model_known=True reproduces the recorded finding C09-with-exit-raises-after-body instead of the documented
+        # behaviour (used only to decide whether a disagreement IS that finding); model_hits counts how often it mattered
+        self.model_known = model_known
+        self.model_hits = 0
 
     # -- scoping (names are unique by construction in Engine A's generator; see vf/props/c06 for shadowing)
     def lookup(self, name, sc):
@@ -522,27 +540,55 @@ class Interp:
                 if fin is not None:
                     self.body(fin, sc)
 
-    def with_(self, mgrs, body, sc):
+    def with_(self, mgrs, body, sc, stmt=None):
+        """Documented behaviour: the managers nest (Python's `with A, B` = `with A: with B`), the value is the body's,
+        or None when some manager suppresses an exception.
+        `stmt` only serves model_known: it stands for the Python `with` statement the manager is compiled into (Hy
+        starts a new nested statement at a manager whose expression needs statements) and records whether the result
+        variable of that statement was assigned, which happens at the end of the statement's body."""
         if not mgrs:
-            return self.body(body, sc)
-        (var, cid, ev, sup), rest = mgrs[0], mgrs[1:]
+            v = self.body(body, sc)
+            if stmt is not None:
+                stmt["assigned"], stmt["v"] = True, v
+            return v
+        m, rest = mgrs[0], mgrs[1:]
+        var, cid, ev, sup = m[:4]
+        pre = mgr_pre(m)
+        outer = None
+        if stmt is None or pre is not None:
+            outer, stmt = stmt, dict(assigned=False, v=None)
         with self.seq():
-            self.effect(1000 + cid * 10 + 1)  # __enter__
-            if var is not None:
-                self.assign(var, ev, sc)
-            try:
-                v = self.with_(rest, body, sc)
-            except Raised as x:
-                self.effect(1000 + cid * 10 + 2)  # __exit__ with exception
-                if sup and x.cls in ("XA", "XB", "XC"):
-                    return None
-                raise
-            except (Break, Continue, Return):
-                self.effect(1000 + cid * 10 + 2)
-                raise
-            else:
-                self.effect(1000 + cid * 10 + 2)
-                return v
+            if pre is not None:
+                self.effect(pre)
+            v = self.with1(var, cid, ev, sup, rest, body, sc, stmt)
+        if outer is not None:
+            # the nested statement completed: its value is stored as the enclosing statement's result
+            outer["assigned"], outer["v"] = True, v
+        return v
+
+    def with1(self, var, cid, ev, sup, rest, body, sc, stmt):
+        self.effect(1000 + cid * 10 + 1)  # __enter__
+        if var is not None:
+            self.assign(var, ev, sc)
+        try:
+            v = self.with_(rest, body, sc, stmt)
+        except Raised as x:
+            self.effect(1000 + cid * 10 + 2)  # __exit__ with exception
+            if sup and x.cls in ("XA", "XB", "XC"):
+                if self.model_known and stmt["assigned"]:
+                    # the suppressed exception was raised by an inner manager's __exit__ of the same Python `with`
+                    # statement after its body had completed: the stored body value survives
+                    if canon(stmt["v"]) != "None":
+                        self.model_hits += 1
+                    return stmt["v"]
+                return None
+            raise
+        except (Break, Continue, Return):
+            self.effect(1000 + cid * 10 + 2)
+            raise
+        else:
+            self.effect(1000 + cid * 10 + 2)
+            return v
 
 
 def canon(v):
@@ -568,10 +614,10 @@ def canon(v):
     return "<%s>" % type(v).__name__
 
 
-def interpret(prog, mode="module", fault=None):
+def interpret(prog, mode="module", fault=None, model_known=False):
     """prog: list of top-level forms; the value of the last one is the result.
     -> dict(value, exc, trace_root, log, nevents)"""
-    it = Interp(fault)
+    it = Interp(fault, model_known)
     sc = it.module if mode == "module" else Scope("function", it.module)
     out = dict(value=None, exc=None)
     try:
@@ -583,6 +629,7 @@ def interpret(prog, mode="module", fault=None):
         out["value"] = canon(r.v)
     out["trace"] = it.tr.root
     out["nevents"] = it.nevents
+    out["model_hits"] = it.model_hits
     return out
 
 
@@ -729,7 +776,17 @@ class Compiled:
             real = self.run(fault)
         except Exception as e:  # noqa
             return ("real-run-raised:" + type(e).__name__, dict(source=self.src, fault=fault, error=str(e)[:300]))
-        return _judge(self.src, ref, real, fault)
+        r = _judge(self.src, ref, real, fault)
+        if r is not None:
+            # is this disagreement exactly the recorded finding? Only if the run agrees in value, exception and trace with
+            # the reference that models that one defect, and the defect's path was actually taken
+            ref2 = interpret(self.prog, self.mode, fault, model_known=True)
+            if ref2["model_hits"] > 0 and _judge(self.src, ref2, real, fault) is None:
+                return (r[0] + KNOWN_WITH_TAG, dict(r[1], agrees_with_model_of="C09-with-exit-raises-after-body"))
+        return r
+
+
+KNOWN_WITH_TAG = "|exit-raises-after-body-then-suppressed"
 
 
 def _judge(src, ref, real, fault=None):
